@@ -86,4 +86,18 @@ MUTATIONS += [
     dict(name="gauss_legendre4_a11_perturbed_minus", props=["C11", "C10", "C01"], file="desolver/integrators/implicit_integration_schemes.py",
          old="        [[0.5 - s / 6, 0.25, 0.25 - s / 6],\n         [0.5 + s / 6, 0.25 + s / 6, 0.25]], dtype=numpy.float64",
          new="        [[0.5 - s / 6, 0.25 - 1e-3, 0.25 - s / 6 + 1e-3],\n         [0.5 + s / 6, 0.25 + s / 6, 0.25]], dtype=numpy.float64"),
+    # ---- reverts of repairs made late in the session (the checks must keep guarding them)
+    dict(name="revert_D37_sub_resolution_step", props=["C03"], file=DS,
+         old="                while dt != 0 and self.__t[self.counter] + dt == self.__t[self.counter]:\n                    dt = dt * 2\n", new=""),
+    dict(name="revert_D38_stage_jacobian_layout", props=["C02"], file=IT,
+         old="self.__jac[idx::__stages, jdx::__stages] -= timestep * self.tableau_intermediate[idx, 1 + jdx] * jac_block",
+         new="self.__jac[idx * __step:(idx + 1) * __step, jdx * __step:(jdx + 1) * __step] -= timestep * self.tableau_intermediate[idx, 1 + jdx] * jac_block"),
+    dict(name="revert_D39_kick_mask_kept", props=["C13"], file=DS,
+         old="        if staggered_mask is None:\n            # a mask given through set_kick_vars while a non-symplectic method was selected is kept for the next symplectic one\n            return self.staggered_mask\n", new=""),
+    dict(name="revert_D40_direction_fallback", props=["C09"], file=DS,
+         old="    if D.ar_numpy.any(undecided):", new="    if False:"),
+    dict(name="revert_D41_slope_cache_invalidation", props=["C06"], file=DS,
+         old="        if hasattr(self.integrator, \"final_time\"):\n            self.integrator.final_time = None\n\n        events, is_terminal", new="        events, is_terminal"),
+    dict(name="revert_D36_near_target_return", props=["C03"], file=DS,
+         old="        if not np.isinf(D.ar_numpy.to_numpy(tf)) and D.ar_numpy.abs(tf - self.__t[self.counter]) < D.ar_numpy.maximum(D.tol_epsilon(self.__y[self.counter].dtype), 0.5 * D.epsilon(self.__y[self.counter].dtype) * D.ar_numpy.abs(tf)):\n            return\n", new=""),
 ]
